@@ -75,7 +75,7 @@ def doRun (st : McSt) (ws : List String) (fromStates : Bool) : McSt × List Stri
     ++ ev.map (fun s => "E " ++ showState s ++ (if st.preds then " " ++ predBattery s else ""))
     ++ (col.map (fun s => "C " ++ showState s ++ " T" ++ showTrace s.trace))
     ++ (match errSt with
-        | some e => ["T " ++ showState e ++ " T" ++ showTrace e.trace]
+        | some e => ["T " ++ showState e ++ (if st.preds then " " ++ predBattery e else "") ++ " T" ++ showTrace e.trace]
         | none => [])
     ++ (if isOk then [s!"stat {showList (stt.map fun (k, n) => s!"{k}:{n}")}"] else [])
     ++ refLines
@@ -87,6 +87,7 @@ def mcLine (st : McSt) (line : String) : McSt × List String :=
   | ["end"] => (st, ["end"])
   | ["cfg", "reference"] => ({ st with cfg := { st.cfg with overrideLeavesOld := false } }, [])
   | ["refenum"] => ({ st with refenum := true }, [])
+  | ["preds"] => ({ st with preds := true }, [])
   | ["node", n] => ({ st with nodes := st.nodes ++ [name! n] }, [])
   | ["proc", p, n] => ({ st with procs := st.procs ++ [(name! p, name! n, false)] }, [])
   | ["proc", p, n, "rec"] => ({ st with procs := st.procs ++ [(name! p, name! n, true)] }, [])
